@@ -16,13 +16,14 @@ import vlib
 
 ENV = {"ASAN_OPTIONS": "detect_leaks=0:abort_on_error=0", "UBSAN_OPTIONS": "print_stacktrace=1"}
 MSEL = list(range(23))
-FLAGS = ["delalias"]   # repair proposed (C15-13) but not necessarily in the tree
+FLAGS = ["delalias", "dotparent"]   # repairs proposed (C15-13, C15-14) but not necessarily in the tree
 
 # ---------------------------------------------------------------- witnesses
 # one per repair flag; the implementation's output on the witness must equal
 # the model's with the flag off (defect present) or on (repaired)
 WITNESS = {
     "delalias": ["A 0 - x 15 0 0 - - 1", "L - b x 0", "L - a b 0", "D b 8"],
+    "dotparent": ["A 0 - ab 15 0 0 - - 1", "A 0 .ab x 5 0 0 ab - 0", "L .ab y ab 0"],
 }
 # regression witnesses for the defects repaired in /repo (fix: commits d815d97 .. 71a6c5d, fb2ee00):
 # run like every other sequence; they must now agree with the model and satisfy the property text
@@ -294,11 +295,15 @@ def gen_sequence(rng, n, alias_loops):
     everalias = set()
     used = []      # codes that appear as inputs, scalar parameters or alias targets
 
+    def lk(c):
+        # _GD_FindField drops a leading '.': every lookup must behave the same with it
+        return "." + c if rng.random() < 0.06 and c not in ("-", "~") and not c.startswith(".") else c
+
     def victim():
         # deleting / renaming something that is in use is where refusal and update logic lives
         if used and rng.random() < 0.4:
             c = rng.choice(used)
-            return c
+            return c if c != "INDEX" else code()
         return code()
 
     def code():
@@ -372,18 +377,22 @@ def gen_sequence(rng, n, alias_loops):
                 scs.append(code() if okpos and rng.random() < 0.3 else "-")
             if spec:
                 ins = []; scs = []; hid = 0
+            if parent != "-" and not spec and ty < 15 and rng.random() < 0.08:
+                parent = "." + parent
             used.extend(ins + [c for c in scs if c != "-"])
             ops.append("A %d %s %s %d %d %d %s %s %d" % (spec, parent, nm, ty, frag, hid,
                                                         ",".join(ins) if ins else "-", ",".join(scs) if scs else "-",
                                                         rng.randint(1, 99)))
-            full = nm if parent == "-" else parent + "/" + nm
+            full = nm if parent == "-" else parent.lstrip(".") + "/" + nm
             if full not in live:
                 live.append(full)
             uses = ins + [c for c in scs if c != "-"]
             if uses and rng.random() < 0.3:
                 # try to take one of the fields this entry uses away from under it
                 u = rng.choice(uses)
-                if rng.random() < 0.6:
+                if u == "INDEX":
+                    pass    # gd_delete("INDEX") is outside the model (the library lets the implicit field be deleted)
+                elif rng.random() < 0.6:
                     ops.append("D %s %d" % (u, rng.choice([0, 1, 4, 5])))
                 else:
                     ops.append("R %s %s %d" % (u, rng.choice(TOP + SUB), rng.choice([2, 2, 0, 6])))
@@ -406,29 +415,29 @@ def gen_sequence(rng, n, alias_loops):
             if nm == "INDEX":
                 continue
             fl = rng.choice([0, 0, 1, 1, 8, 9, 4, 5, 2, 3, 13])
-            ops.append("D %s %d" % (nm, fl))
+            ops.append("D %s %d" % (lk(nm), fl))
         elif r < 0.64:
             nm = victim()
             new = rng.choice(TOP + SUB)
             if rng.random() < 0.05:
                 new = rng.choice(["a/b", "~", "x<y"])
             fl = rng.choice([0, 0, 2, 2, 4, 6, 8, 10])
-            ops.append("R %s %s %d" % (nm, new, fl))
+            ops.append("R %s %s %d" % (lk(nm), new, fl))
             # keep the alias map roughly right: targets follow unless DANGLE
             if nm in aliases:
                 aliases.pop(nm, None)
             if nm in everalias:
                 everalias.add(new)
         elif r < 0.69:
-            ops.append("V %s %d" % (code(), rng.choice([0, 1, 1, 2])))
+            ops.append("V %s %d" % (lk(code()), rng.choice([0, 1, 1, 2])))
         elif r < 0.78:
-            ops.append("H %s %d" % (code(), rng.choice([0, 1, 1])))
+            ops.append("H %s %d" % (lk(code()), rng.choice([0, 1, 1])))
         else:
             par = "-"
             if rng.random() < 0.4:
                 par = code()
             sel = rng.choice([22, 22, 22, 15, 19, 20, 21, 0, 1, 17, 16, 18, 14, 13, 12, 9])
-            ops.append("Q %s %d %d" % (par, sel, rng.choice([0, 0, 0, 1, 2, 3])))
+            ops.append("Q %s %d %d" % (lk(par), sel, rng.choice([0, 0, 0, 1, 2, 3])))
         if bracket_from >= 0:
             bracket(bracket_from)
     return ops
@@ -484,7 +493,7 @@ def main():
         rc, out = run_impl(w)
         isteps = strip_i(parse_steps(out))
         verdict = None
-        for b in "01":
+        for b in "10":    # the repaired model first: a sequence that is merely cut short would "agree" with anything
             cb = "".join(bits) + b + "1" * (len(FLAGS) - len(bits) - 1)
             # other flags do not matter for a witness; use all-others-on and all-others-off
             agree = False
@@ -493,7 +502,12 @@ def main():
                 mrc, mout = run_model(w, cb)
                 msteps = parse_steps(mout)
                 ncr = [i for i, s in enumerate(msteps) if s[0].startswith("> crash") or (s[2] and s[2].get("alive") == "0")]
-                if ncr:
+                unm = [i for i, s in enumerate(msteps) if s[0].startswith("> unmodelled")]
+                if unm:
+                    # the unrepaired behaviour is outside the model: agree on what comes before
+                    if b == "0" and strip_i(msteps[:unm[0]]) == isteps[:unm[0]]:
+                        agree = True
+                elif ncr:
                     # model predicts a crash at step ncr[0]: implementation must die there
                     if rc != 0 and len(isteps) <= ncr[0] + 1 and strip_i(msteps[:ncr[0]]) == isteps[:ncr[0]]:
                         agree = True
@@ -623,6 +637,25 @@ def main():
             else:
                 modelbad.append((ops[:cut + 1], cut, ("> " + why, []), ("no crash", []), False))
 
+    # behaviour outside the model, judged against the property text directly
+    DIRECT = {
+        "dotparent/A.madd": ["A 0 - ab 15 0 0 - - 1", "A 0 .ab x 5 0 0 ab - 0"],
+        "dotparent/L.madd": ["A 0 - ab 15 0 0 - - 1", "L .ab y ab 0"],
+    }
+    for dkey, dops in DIRECT.items():
+        drc, dout = run_impl(dops)
+        dsteps = strip_i(parse_steps(dout))
+        if drc != 0 or len(dsteps) != len(dops):
+            viol[dkey] = ("%s: the library died or the harness failed: %s" % (dops[-1], dout[-300:]),
+                          {"kind": "impl-vs-spec", "ops": dops, "impl_tail": dout[-1500:]})
+            continue
+        for i, (res, dl) in enumerate(dsteps):
+            sb = spec_check(dops[i], res, dl)
+            if sb:
+                viol[dkey] = ("after %s: %s" % (dops[i], "; ".join(m_ for _, m_ in sb[:3])),
+                              {"kind": "impl-vs-spec", "ops": dops[:i + 1], "impl_result": res, "impl_dump": dl,
+                               "how": "feed ops to harness/C15/nametab <scratchdir> (ASan build)"})
+                break
     # lookup through an alias of the parent (alias/subfield), judged against the property text directly
     lw = ["A 0 - a 15 0 0 - - 1", "A 1 a xx 15 0 0 - - 2", "A 0 - aa 15 0 0 - - 3", "A 1 aa x 15 0 0 - - 4", "L - bbbbbbb a 0", "F bbbbbbb/xx"]
     lrc, lout = run_impl(lw)
